@@ -110,9 +110,9 @@ class ACLObservation(AbstractObservation, discriminator="acl"):
                 }
             else:
                 src_ip = rule_state["src_ip_address"]
-                src_node_id = 1 if src_ip is None else self.ip_to_id[src_ip]
+                src_node_id = 1 if src_ip is None else self.ip_to_id.get(src_ip, 1)
                 dst_ip = rule_state["dst_ip_address"]
-                dst_node_id = 1 if dst_ip is None else self.ip_to_id[dst_ip]
+                dst_node_id = 1 if dst_ip is None else self.ip_to_id.get(dst_ip, 1)
                 src_wildcard = rule_state["src_wildcard_mask"]
                 src_wildcard_id = self.wildcard_to_id.get(src_wildcard, 1)
                 dst_wildcard = rule_state["dst_wildcard_mask"]
